@@ -3996,23 +3996,8 @@ Proof.
 Qed.
 
 (* ================================================================== *)
-(* U. histories on one instance: every operation answers the pure function [result_on] of the
-      registry as it is at that moment (built by the registrations so far), the strict flag and
-      the operation itself - nothing an earlier call did (its outcome, an exception, the counters,
-      the .name of an mRNA it rendered) can influence a later one *)
-Fixpoint replay (strict : bool) (T : list (str * template)) (os : list op)
-  : list (list (str * template) * result) :=
-  match os with
-  | [] => []
-  | o :: rest => (T, result_on strict T o) :: replay strict (registry_after T o) rest
-  end.
-
-Theorem current_registry_proof : forall T strict n os,
-  run_ops (mkInstance T strict n) os = replay strict T os.
-Proof.
-  intros T strict n os. revert T n. induction os as [|o os IH]; intros T n; [reflexivity|].
-  cbn [run_ops step replay i_templates i_strict i_calls]. f_equal. apply IH.
-Qed.
+(* U. (histories on one instance: stated and proved after this section, because the filter table is
+      part of the instance state) *)
 
 (* registration is dict assignment: afterwards the name resolves to the new template and every
    other name resolves as before *)
@@ -4074,4 +4059,114 @@ Proof.
 Qed.
 
 End WithFilterTable.
-Arguments replay {FT}.
+
+(* ================================================================== *)
+(* U. histories on one instance: every operation answers the pure function [result_on] of the
+      filter table and the registry as they are at that moment (built by the filters stored and
+      the registrations made so far ON THIS INSTANCE), the strict flag and the operation itself -
+      nothing an earlier call did (its outcome, an exception, the counters, the .name of an mRNA
+      it rendered) can influence a later one *)
+Fixpoint replay (strict : bool) (F : ftable) (T : list (str * template)) (os : list op) : list hrow :=
+  match os with
+  | [] => []
+  | o :: rest => (F, T, @result_on F strict T o) :: replay strict (filters_after F o) (registry_after T o) rest
+  end.
+
+Theorem current_registry_proof : forall F T strict n os,
+  run_ops (mkInstance F T strict n) os = replay strict F T os.
+Proof.
+  intros F T strict n os. revert F T n. induction os as [|o os IH]; intros F T n; [reflexivity|].
+  cbn [run_ops step replay i_filters i_templates i_strict i_calls]. f_equal. apply IH.
+Qed.
+
+(* storing a filter is dict assignment on the filter table: afterwards the name resolves to the
+   new callable and every other name resolves as before *)
+Lemma lookup_ft_set : forall (F : ftable) n cf m,
+  lookup (ft_set F n cf) m = if str_eqb n m then Some cf else lookup F m.
+Proof. intros. reflexivity. Qed.
+
+(* ... so afterwards {{x|n}} is a FILTERED variable on that instance, whatever it was before, and the
+   reading of every other word is unchanged *)
+Lemma is_filter_ft_set : forall (F : ftable) n cf m,
+  @is_filter (ft_set F n cf) m = (str_eqb n m || @is_filter F m).
+Proof.
+  intros. unfold is_filter, bound, custom_filters. rewrite lookup_ft_set.
+  destruct (str_eqb n m); [apply orb_true_r|reflexivity].
+Qed.
+
+(* ================================================================== *)
+(* V. several instances: the rows an instance contributes to a system history are exactly the
+      history of a LONE instance given the operations addressed to it.  Operations on other
+      instances - filters stored, registrations, renders, exceptions - and instances created
+      before or after leave no trace. *)
+Fixpoint ops_on (j : nat) (ops : list sop) : list op :=
+  match ops with
+  | [] => []
+  | SOn k o :: rest => if Nat.eqb k j then o :: ops_on j rest else ops_on j rest
+  | SNew _ _ _ :: rest => ops_on j rest
+  end.
+Definition rows_of (j : nat) (rs : list srow) : list hrow :=
+  map snd (filter (fun r : srow => Nat.eqb (fst (fst r)) j) rs).
+
+Lemma nth_error_set_nth_same : forall {X} (l : list X) k x y,
+  nth_error l k = Some y -> nth_error (set_nth l k x) k = Some x.
+Proof.
+  induction l as [|a l IH]; intros [|k] x y H; cbn in *; try discriminate; [reflexivity|]. eapply IH; eauto.
+Qed.
+Lemma nth_error_set_nth_other : forall {X} (l : list X) k j x,
+  k <> j -> nth_error (set_nth l k x) j = nth_error l j.
+Proof.
+  induction l as [|a l IH]; intros [|k] [|j] x H; cbn; try reflexivity; [congruence|]. apply IH. congruence.
+Qed.
+
+Lemma step_strict : forall i o, i_strict (fst (step i o)) = i_strict i.
+Proof. reflexivity. Qed.
+
+Theorem isolated_proof : forall ops sys j i,
+  nth_error sys j = Some i ->
+  rows_of j (run_sys sys ops) = run_ops i (ops_on j ops).
+Proof.
+  induction ops as [|[F T st|k o] ops IH]; intros sys j i Hj; [reflexivity| |].
+  - cbn [run_sys ops_on]. apply IH. rewrite nth_error_app1; [exact Hj|].
+    apply nth_error_Some. congruence.
+  - cbn [run_sys ops_on]. destruct (Nat.eqb k j) eqn:E.
+    + apply Nat.eqb_eq in E. subst k. rewrite Hj.
+      destruct (step i o) as [i' r] eqn:S. unfold rows_of. cbn [filter fst snd].
+      rewrite Nat.eqb_refl. cbn [map snd run_ops]. rewrite S. f_equal.
+      apply IH. eapply nth_error_set_nth_same; eauto.
+    + apply Nat.eqb_neq in E. destruct (nth_error sys k) as [ik|] eqn:Hk.
+      * destruct (step ik o) as [i' r]. unfold rows_of. cbn [filter fst snd].
+        apply Nat.eqb_neq in E. rewrite E. apply Nat.eqb_neq in E.
+        apply IH. rewrite nth_error_set_nth_other by exact E. exact Hj.
+      * apply IH. exact Hj.
+Qed.
+
+(* an instance created at ANY moment - whatever the instances that exist already went through -
+   behaves as the lone instance of its constructor arguments *)
+Theorem fresh_instance_proof : forall sys F T strict ops,
+  rows_of (length sys) (run_sys sys (SNew F T strict :: ops)) =
+  run_ops (mkInstance F T strict 0) (ops_on (length sys) ops).
+Proof.
+  intros. cbn [run_sys].
+  apply (isolated_proof ops (sys ++ [mkInstance F T strict 0]) (length sys) (mkInstance F T strict 0)).
+  rewrite nth_error_app2 by apply le_n. rewrite Nat.sub_diag. reflexivity.
+Qed.
+
+(* the rows of one instance carry its own strict flag *)
+Lemma sys_rows_strict : forall ops sys j i,
+  nth_error sys j = Some i ->
+  forall r, In r (run_sys sys ops) -> fst (fst r) = j -> snd (fst r) = i_strict i.
+Proof.
+  induction ops as [|[F T st|k o] ops IH]; intros sys j i Hj r Hr Hk; [destruct Hr| |].
+  - cbn [run_sys] in Hr. refine (IH _ j i _ r Hr Hk). rewrite nth_error_app1; [exact Hj|].
+    apply nth_error_Some. congruence.
+  - cbn [run_sys] in Hr. destruct (nth_error sys k) as [ik|] eqn:Hnk.
+    + destruct (step ik o) as [i' r'] eqn:S. destruct Hr as [Hr|Hr].
+      * subst r. cbn [fst snd] in *. subst k. congruence.
+      * destruct (Nat.eq_dec k j) as [->|Hne].
+        -- assert (ik = i) by congruence. subst ik.
+           rewrite <- (step_strict i o). rewrite S. cbn [fst].
+           refine (IH _ j i' _ r Hr Hk). eapply nth_error_set_nth_same; eauto.
+        -- refine (IH _ j i _ r Hr Hk). rewrite nth_error_set_nth_other by exact Hne. exact Hj.
+    + exact (IH _ j i Hj r Hr Hk).
+Qed.
